@@ -333,7 +333,7 @@ def main():
                 ss = to_plain(list(bp._split_sizes))
                 checks.append((f"should {s} {b} {pt}", f"{call_text('shouldPreconditionDims', tg['shouldPreconditionDims'], (ss, pt))} == {lit(want, parse_type('option[list[bool]]'))}"))
                 checks.append((f"exponent {s} {b} {pt}", f"{call_text('exponentForPreconditioner', tg['exponentForPreconditioner'], (ss, pt))} == {lit(int(pre.exponent_for_preconditioner()), parse_type('option[int]'))}"))
-                if len(checks) % 3 == 0:
+                if len(checks) % 3 == 0 and int(np.prod([len(x) for x in ss] + [1])) <= 40:
                     for rc in (0, 1, -2):
                         pre._compression_rank = rc
                         want = to_plain([list(x) for x in pre.shapes_for_preconditioners()])
